@@ -216,6 +216,10 @@ fn replay(args: &[String]) -> i32 {
     if let Some(f) = arg(args, "--fuel").and_then(|s| s.parse().ok()) {
         engine::set_fuel_limit(f);
     }
+    // ablation replay: switch off the mechanism a recorded finding blames (hook H5)
+    if let Some(m) = arg(args, "--ablate").and_then(|s| s.parse::<u32>().ok()) {
+        regexml::verif::set_ablation(m);
+    }
     let mut obs = Obs::new();
     match mon.check(&c, &mut obs) {
         Outcome::Held => {
@@ -234,6 +238,63 @@ fn replay(args: &[String]) -> i32 {
             1
         }
     }
+}
+
+/// Ablation replay of a batch of witnesses (hook H5). Input: one JSON object per line with
+/// "case", "kind" and "mask"; the case is re-checked with the ablation switches of the mask on.
+/// Output (same order, one line each): "gone" if the monitor no longer reports a violation,
+/// "other" if it reports different violations only (another kind, or another observation of the
+/// same kind - an artefact of the ablation), "same" if the same kind and observation persist,
+/// "inconclusive" if the monitor cannot judge the ablated run.
+fn ablate(args: &[String]) -> i32 {
+    let prop = arg(args, "--prop").expect("--prop");
+    let file = arg(args, "--file").expect("--file");
+    let out = arg(args, "--out").expect("--out");
+    let text = std::fs::read_to_string(&file).expect("read batch");
+    let mon = props::monitor(&prop).expect("unknown property");
+    engine::install_panic_hook();
+    engine::set_fuel_limit(arg(args, "--fuel").and_then(|s| s.parse().ok()).unwrap_or(20_000_000));
+    let mut res = String::new();
+    use std::io::Write;
+    let mut f = std::fs::File::create(&out).expect("create out");
+    for line in text.lines() {
+        let line = line.trim();
+        if line.is_empty() {
+            continue;
+        }
+        let j = match J::parse(line) {
+            Ok(j) => j,
+            Err(_) => {
+                let _ = writeln!(f, "inconclusive");
+                continue;
+            }
+        };
+        let c = Case::from_json(j.get("case").unwrap_or(&j));
+        let kind = j.str("kind").unwrap_or("").to_string();
+        let observed = j.str("observed").map(|s| s.to_string());
+        let mask = j.int("mask").unwrap_or(0) as u32;
+        regexml::verif::set_ablation(mask);
+        let mut obs = Obs::new();
+        obs.quiet = true;
+        let o = std::panic::catch_unwind(std::panic::AssertUnwindSafe(|| mon.check(&c, &mut obs)));
+        regexml::verif::set_ablation(0);
+        res.clear();
+        res.push_str(match o {
+            Ok(Outcome::Held) => "gone",
+            Ok(Outcome::Inconclusive(_)) => "inconclusive",
+            Ok(Outcome::Violated(fs)) => {
+                if fs.iter().any(|x| x.kind == kind && observed.as_ref().map_or(true, |o| *o == x.observed)) {
+                    "same"
+                } else {
+                    "other"
+                }
+            }
+            Err(_) => "inconclusive",
+        });
+        let _ = writeln!(f, "{}", res);
+        let _ = f.flush();
+    }
+    0
 }
 
 /// small self-contained workloads for the sanitizer lanes (Miri, ASan, TSan): no file I/O, results
@@ -293,6 +354,7 @@ fn main() {
         Some("replay") => replay(&args),
         Some("selftest") => selftest::main(&args),
         Some("lane") => lane(&args),
+        Some("ablate") => ablate(&args),
         _ => {
             eprintln!("usage: rxv run|replay|selftest ...");
             2
